@@ -87,6 +87,8 @@ class Result:
         self.cov.update(o.cov)
         self.caps.extend(o.caps)
         for k, v in o.extra.items():
+            if k.startswith("_"):
+                continue            # per-shard payload for the module's own explorer, not a counter
             if k.startswith("max_"):
                 self.extra[k] = max(self.extra.get(k, v), v)
             elif isinstance(v, (int, float)):
@@ -169,19 +171,37 @@ def run_property(modname, tier, seed, only_scopes=None):
     harness_errors = []
     nproc = min(NPROC, max(1, len(tasks)))
     ctx = mp.get_context("fork")
+    def absorb(status, task, r):
+        if status != "ok":
+            harness_errors.append((task, r))
+            return None
+        total.merge(r)
+        ps = per_scope[task[0]]
+        ps.evaluations += r.evaluations
+        ps.states += r.states
+        ps.transitions += r.transitions
+        ps.validated += r.validated
+        ps.nontrivial |= r.nontrivial
+        ps.extra["cpu_s"] = ps.extra.get("cpu_s", 0) + r.extra.get("cpu_s", 0)
+        return r
+
+    if hasattr(mod, "explore"):
+        nproc = NPROC
     with ctx.Pool(nproc, initializer=_worker_init, initargs=(modname,)) as pool:
-        for status, task, r in pool.imap_unordered(_worker_run, tasks, chunksize=1):
-            if status != "ok":
-                harness_errors.append((task, r))
-                continue
-            total.merge(r)
-            ps = per_scope[task[0]]
-            ps.evaluations += r.evaluations
-            ps.states += r.states
-            ps.transitions += r.transitions
-            ps.validated += r.validated
-            ps.nontrivial |= r.nontrivial
-            ps.extra["cpu_s"] = ps.extra.get("cpu_s", 0) + r.extra.get("cpu_s", 0)
+        if hasattr(mod, "explore"):
+            # explicit-state search: the module drives the frontier level by level and hands each level's
+            # transitions to the pool; `submit` returns the shard results after absorbing their counters
+            def submit(level_tasks):
+                out = []
+                for status, task, r in pool.imap_unordered(_worker_run, level_tasks, chunksize=1):
+                    r = absorb(status, task, r)
+                    if r is not None:
+                        out.append((task, r))
+                return out
+            mod.explore(submit, plan, total, tier, seed)
+        else:
+            for status, task, r in pool.imap_unordered(_worker_run, tasks, chunksize=1):
+                absorb(status, task, r)
     if hasattr(mod, "finish"):
         # cross-shard obligations (e.g. cross-process determinism) evaluated once in the master
         mod.finish(total, tier, seed)
